@@ -20,9 +20,10 @@
      * std: `slice::binary_search_by` on a strictly increasing slice and `partition_point` on a
        sorted slice return the number of elements below the probe (`count_lt`); `sort` sorts;
        HashMap/dense-table lookups are finite maps.
-     * lib.rs `inverse_and_psi_u32` (one pass with sentinels over uninitialised memory) is
-       represented by `inverse` + `psi_of` (= compute_from_sa_isa_u32), to which it is equal on
-       permutations; compared at every index by the check.
+     * lib.rs `inverse_and_psi_u32` is transcribed (`inverse_and_psi`: one pass, isa slots start
+       as the sentinel None, psi slots start uninitialised = None; reading an unwritten slot at
+       the end would be undefined behaviour = Panic).  ProofsIAP shows it equal to `inverse` +
+       `psi_of` (= psi/mod.rs compute_from_sa_isa_u32) on every permutation.
 
    Indices, ranks and sigma-domain symbols are `nat` (all bounded by the text length); text
    characters (u32) are `N`.  usize arithmetic is unbounded; every `x - 1` that could
@@ -153,6 +154,39 @@ Definition inverse (x : list nat) : list nat :=
 Definition psi_of (sa isa : list nat) : list nat :=
   map (fun pos => nth (if pos + 1 =? length isa then 0 else pos + 1) isa 0) sa.
 
+(* lib.rs inverse_and_psi_u32: for (idx, pos) in sa.enumerate(): isa[pos] = idx; if the predecessor
+   position's isa is already known its psi entry is idx; if the successor position's isa is
+   already known this index's psi entry is that. *)
+Definition iap_step (len : nat) (st : list (option nat) * list (option nat)) (ip : nat * nat)
+  : list (option nat) * list (option nat) :=
+  let '(isa, psi) := st in
+  let '(idx, pos) := ip in
+  let isa := set_nth pos (Some idx) isa in
+  let prev_pos := if pos =? 0 then len - 1 else pos - 1 in
+  let psi := match nth prev_pos isa None with
+             | Some prev_isa => set_nth prev_isa (Some idx) psi
+             | None => psi
+             end in
+  let next_pos := if pos + 1 =? len then 0 else pos + 1 in
+  let psi := match nth next_pos isa None with
+             | Some next_isa => set_nth idx (Some next_isa) psi
+             | None => psi
+             end in
+  (isa, psi).
+
+Fixpoint enumerate_from {A} (i : nat) (l : list A) : list (nat * A) :=
+  match l with
+  | [] => []
+  | a :: r => (i, a) :: enumerate_from (S i) r
+  end.
+
+Definition inverse_and_psi (sa : list nat) : res (list nat * list nat) :=
+  let len := length sa in
+  let '(isa, psi) := fold_left (iap_step len) (enumerate_from 0 sa) (repeat None len, repeat None len) in
+  do isa' <- mapM unwrap isa;
+  do psi' <- mapM unwrap psi;
+  Ok (isa', psi').
+
 (* ------------------------------------------------------------------ the Psi trait *)
 Record psi_ops := {
   p_len : nat;
@@ -213,12 +247,6 @@ Definition rsa_lookup (sa : list nat) (idx : nat) : res nat := ok_or (nth_error 
 
 (* SampledSuffixArray *)
 Record ssa := { ssa_sampling : nat; ssa_zero : nat; ssa_sampled : sampled }.
-
-Fixpoint enumerate_from {A} (i : nat) (l : list A) : list (nat * A) :=
-  match l with
-  | [] => []
-  | a :: r => (i, a) :: enumerate_from (S i) r
-  end.
 
 Definition ssa_construct (sampling : nat) (sa : list nat) : res ssa :=
   if 31 <? sampling then Err else
@@ -353,9 +381,8 @@ Definition construct_parts (text : list N) (rb : list nat) : res parts :=
   do sg <- sigma_construct text;
   do s <- translate_text sg text;
   let sa := suffix_array s in
-  let isa := inverse sa in
-  let psi := psi_of sa isa in
-  Ok {| pt_rb := rbv; pt_sigma := sg; pt_S := s; pt_sa := sa; pt_isa := isa; pt_psi := psi |}.
+  do ip <- inverse_and_psi sa;
+  Ok {| pt_rb := rbv; pt_sigma := sg; pt_S := s; pt_sa := sa; pt_isa := fst ip; pt_psi := snd ip |}.
 
 (* PsiDocument<ReferenceSuffixArray, ReferenceInverseSuffixArray, ReferencePsi> *)
 Definition construct_reference_psi_doc (text : list N) (rb : list nat) : res doc :=
